@@ -280,5 +280,5 @@ def run_batch(run, cases, tag, invariants=("Report", "HiddenUserInert", "Exactly
     os.unlink(path)
     from .tlc import extract_tuples
 
-    mism = [(v[0], v[1], v[2], v[3]) for v in extract_tuples(res.out, "M|S|O")]
+    mism = [(v[0], v[1], v[2], v[3]) for v in extract_tuples(res.out, 'M"|S"|O"')]
     return res, mism
